@@ -5,7 +5,7 @@ from ..terms import sel_conditions, split_cases, NF, sym, term_str
 from ..ratfun import RF
 from ..values import Struct, Arr, Opaque
 from ..facts import adt, param
-from .rounding import count_rounded_ops, spurious_overflow
+from .rounding import count_rounded_ops, spurious_overflow, data_divisors
 
 HI = 'poly::HasIntegral'
 LEVEL = 'proof'
@@ -140,6 +140,10 @@ def check(cx):
                         dg = 0
                     if dg > deg + 1:
                         high.append((dg, s_))
+            dd = data_divisors(lanes[0])
+            rep.ob('range', inst2 + ':divisors', not dd, 'the constant term is computed without a quotient by the knot or a coefficient',
+                   fn=inst2, file=file2, line=line2,
+                   msg='integral(knot) divides by %s: zero there gives ±∞ / NaN although the anchored antiderivative is finite' % (term_str(dd[0])[:100] if dd else ''))
             high.sort(key=lambda z: -z[0])
             rep.ob('range', inst2 + ':knot-power', not high,
                    'no intermediate of the constant term is a higher power of knot.x than x^%d' % (deg + 1), fn=inst2, file=file2, line=line2,
